@@ -677,8 +677,6 @@ theorem C14_file_actual_only_by_event (n : Node) (op : Op) (j k : Nat) (G G' : F
       rw [if_pos hc]
       by_cases h1 : G.restoreCd = 1
       · simp only [h1, if_true] at hne ⊢
-        have hs : ∀ g : File, ((fun f1 : File => if G.scanCd = 1 then f1.scan else f1)
-            (if n.powerPhase.scanCd = 1 then g.scan else g)) = g ∨ True := fun _ => Or.inr trivial
         -- the two possible scans leave `actual` and `deleted` alone
         have ha : ((fun f1 : File => if G.scanCd = 1 then f1.scan else f1)
             (if n.powerPhase.scanCd = 1 then f.scan else f)).actual = f.actual := by
@@ -1414,5 +1412,88 @@ example :
       .fsRestoreFile "d" "a", .folder "d" .restore, .tick, .tick, .tick, .shutdown, .tick, .tick, .startup, .tick, .tick]
     (n.sws.map (·.visible), n.folders.map (fun G => (G.visible, G.files.map (·.visible)))) =
       ([.unused, .unused], [(.none, [.none, .none])]) := by decide
+
+
+/-! ## 10. the model's one silent branch is unreachable -/
+
+/-- FIXING implies a countdown is present (`_update_fix_status` would raise `TypeError` on `None -= 1`). -/
+def Sw.FixOk (x : Sw) : Prop := x.actual = .fixing → x.fixCd.isSome = true
+
+theorem Sw.FixOk.of_rel {y x : Sw} (h : Sw.PowerRel y x) (hx : x.FixOk) : y.FixOk := by
+  intro hy
+  rcases h.actual with e | ⟨_, g⟩
+  · rw [h.fixCd]; exact hx (e ▸ hy)
+  · rw [g] at hy; cases hy
+
+theorem Sw.tick_fixOk (x : Sw) (hx : x.FixOk) : x.tick.FixOk := by
+  have h1 : x.fixTick.FixOk := by
+    unfold Sw.fixTick
+    split
+    · unfold Sw.updateFix
+      split
+      · split
+        · intro h; cases h
+        · intro _; rfl
+      · exact hx
+    · exact hx
+  unfold Sw.tick Sw.auxTick
+  (repeat' split) <;> first | exact h1 | (intro h; cases h) | (intro h; exact h1 h)
+
+theorem Sw.handle_fixOk (x : Sw) (r : SwReq) (hx : x.FixOk) : (x.handle r).1.FixOk := by
+  cases r <;> simp only [Sw.handle]
+  case scan => exact hx
+  case fix =>
+    unfold Sw.fix; split
+    · intro _; rfl
+    · exact hx
+  case compromise => intro h; cases h
+  case start =>
+    split
+    · intro h
+      have := Sw.FixOk.of_rel x.wake_rel hx h
+      exact this
+    · exact hx
+  all_goals ((repeat' split) <;> exact hx)
+
+theorem swEff_fixOk (n : Node) (op : Op) (x : Sw) (hx : x.FixOk) : (swEff n op x).FixOk := by
+  cases op <;> simp only [swEff]
+  case tick =>
+    have hp := Sw.FixOk.of_rel (powerEff_rel n x) hx
+    unfold tickEff
+    split
+    · split
+      · exact Sw.tick_fixOk _ hp
+      · exact Sw.tick_fixOk _ hp
+    · exact hp
+  case shutdown => (repeat' split) <;> first | exact hx | exact .of_rel x.shutDown_rel hx
+  case reset => (repeat' split) <;> first | exact hx | exact .of_rel x.shutDown_rel hx
+  case startup => split <;> first | exact hx | exact .of_rel (powerOnEff_rel n x) hx
+  case sw isApp nm r =>
+    unfold Sw.request
+    (repeat' split) <;> first | exact hx | exact x.handle_fixOk r hx
+  case swSet nm h =>
+    split
+    · intro hh; cases h <;> cases hh
+    · exact hx
+  case appInstall nm =>
+    split
+    · unfold Sw.install; split <;> exact hx
+    · exact hx
+  case appRun nm => (repeat' split) <;> first | exact hx | exact .of_rel x.startUp_rel hx
+  all_goals exact hx
+
+/-- **Invariant.** From any state in which every FIXING item has a countdown (in particular every state the rig
+starts from), every reachable state has the property: the `none` branch of `Sw.updateFix` is never taken. -/
+theorem C14_fixing_has_countdown (ops : List Op) : ∀ n : Node,
+    (∀ x ∈ n.sws, x.FixOk) → ∀ x ∈ (n.run ops).sws, x.FixOk := by
+  induction ops with
+  | nil => intro n h; exact h
+  | cons op ops ih =>
+    intro n h
+    apply ih (n.apply op)
+    intro y hy
+    rw [apply_sws, List.mem_map] at hy
+    obtain ⟨x, hx, rfl⟩ := hy
+    exact swEff_fixOk n op x (h x hx)
 
 end Primaite.Health
